@@ -42,7 +42,7 @@ FAMILY_DATA = {
     "E": ("D0", "D1", "D2", "D4"),
     "G": ("D0", "D1", "D2", "D3", "D4", "D5"),
     "Gm": ("D0", "D1", "D2", "D3", "D4", "D5"),  # thorough; quick uses GM_QUICK_DATA
-    "Gm3": ("D0", "D4"),  # mutants of the n=3 programs (thorough only)
+    "Gm3": ("D0",),  # mutants of the n=3 programs (thorough only)
 }
 
 GM_QUICK_DATA = ("D0", "D2", "D4")
@@ -132,7 +132,7 @@ class C03(Check):
             "expr_heads": len(CG.HEADS),
             "programs": "n<=2 full menu (env D) + n<=2 extra menu (env X), all mutants" if q else
                         "n<=2 full menu (D) + n<=2 extra menu (X) + n=3 core menu depth<=2 (D), all mutants "
-                        "(mutants of n=3 programs with 2 data sets)",
+                        "(mutants of n=3 programs with data set D0 only)",
             "data_sets": {k: list(GM_QUICK_DATA if (q and k == "Gm") else v) for k, v in FAMILY_DATA.items()
                           if not (q and k == "Gm3")},
         }
